@@ -506,6 +506,51 @@ def shared(modname, fn_name, new_rule, keep=None):
     return rule
 
 
+def reach_from(ctx, files):
+    """functions reachable (through resolved repo calls and helpers evaluated in place) from the public functions of the
+    given modules: what a call of one of the property's entry points can execute"""
+    key = ("reach", tuple(files))
+    if key in ctx.cache:
+        return ctx.cache[key]
+    work = []
+    for f in ctx.program.all_funcs(include_new=True):
+        if f.module.path.split("mir_eval/")[-1] in files and not f.qual.split(".")[-1].startswith("_") and f.parent is None:
+            work.append(f.qual)
+    seen = set()
+    while work:
+        q = work.pop()
+        if q in seen or not ctx.program.has_func(q):
+            continue
+        seen.add(q)
+        s = ctx.S.get(q)
+        for c in s.calls():
+            if c.fn is not None and c.fn.op in ("func", "localfunc"):
+                work.append(tm.callee_name(c.fn))
+        for h in getattr(s, "inlined", ()):
+            work.append(h)
+    ctx.cache[key] = seen
+    return seen
+
+
+def shared_reach(modname, fn_name, new_rule, files):
+    """A purity / state rule of another property re-issued for the functions this property's entry points can reach:
+    hidden state or an in-place write there makes the property's universally quantified statement depend on history."""
+
+    def rule(ctx):
+        import importlib
+
+        reach = reach_from(ctx, files)
+        mod = importlib.import_module("sa.rules.%s" % modname)
+        for o in getattr(mod, fn_name)(ctx):
+            fq = o.construct.split(":")[0]
+            if fq in reach:
+                o.rule = new_rule
+                yield o
+
+    rule.__doc__ = "shared with %s.%s, restricted to the call-graph closure of %s" % (modname, fn_name, ", ".join(files))
+    return rule
+
+
 # ---------------------------------------------------------------- dtype flow
 _INHERIT = {"np.array", "np.copy", ".copy", "np.asarray", "np.zeros_like", "np.empty_like", "np.ones_like", "np.full_like", "np.asanyarray"}
 _REAL_FUNCS = {"np.log", "np.log2", "np.log10", "np.exp", "np.sqrt", "np.mean", "np.median", "np.divide", "np.true_divide", "np.interp", "np.std", "np.var", "np.average"}
@@ -929,3 +974,26 @@ def shape_key(t, _memo=None):
         return r
 
     return rec(t)
+
+
+def purity_rules(prop):
+    """Every property quantifies over *all* calls of its entry points: hidden state (a module-level cache, a memoised
+    template, a mutable default) or an in-place write to an argument, anywhere in what those entry points can reach,
+    makes the result of one call depend on the calls before it.  The two purity rules of C15 are therefore part of every
+    check, restricted to the call-graph closure of the public functions of the property's own files."""
+    import json
+    import os
+
+    here = os.path.dirname(os.path.dirname(os.path.dirname(os.path.abspath(__file__))))
+    files = None
+    with open(os.path.join(here, "properties.jsonl")) as fh:
+        for line in fh:
+            d = json.loads(line)
+            if d["id"] == prop:
+                files = tuple(sorted(x.split("/")[-1] for x in d["anchors"]["files"]))
+    if not files:
+        return []
+    return [
+        (prop + ".NOSTATE", 5, shared_reach("c15", "rule_globalstate", prop + ".NOSTATE", files)),
+        (prop + ".ARGSAFE", 5, shared_reach("c15", "rule_nomut", prop + ".ARGSAFE", files)),
+    ]
